@@ -195,6 +195,7 @@ func epsSMX509() []*epT {
 		e := der(n, seeds, parse, follow)
 		e.enc = pemEnc(typ)
 		e.pairLimit = -1
+		e.fast = false
 		return e
 	}
 	eps = append(eps,
@@ -261,7 +262,7 @@ func epsSMX509() []*epT {
 	for i, s := range bytesSeeds {
 		i, s := i, s
 		n := "smx509.DecryptPEMBlock[block.Bytes," + pemSeeds[i].name + "]"
-		eps = append(eps, &epT{name: n, fast: true, seeds: []seedT{s}, pairLimit: -1,
+		eps = append(eps, &epT{name: n, fast: i == 0, seeds: []seedT{s}, pairLimit: -1,
 			call: func(x *cx, in []byte) (ok bool) {
 				hdr := pemBlockOf(pemSeeds[i]).Headers
 				x.g(n, func() {
